@@ -533,7 +533,23 @@ impl G<'_> {
                 _ => T::Dot,
             };
         }
-        match self.rng.usize(13) {
+        match self.rng.usize(14) {
+            13 => {
+                // an effectful multi-valued index: `mk` is fine here, the brackets run in value mode
+                let mut z = match self.rng.usize(3) {
+                    0 => T::Bomb,
+                    1 => T::Input,
+                    _ => self.mk(),
+                };
+                for _ in 0..1 + self.rng.usize(2) {
+                    self.next_probe += 1;
+                    let i = self.rng.range(0, 1);
+                    // probe(n) | i : an effect, then a small index
+                    let m = T::Pipe(bx(T::Pass(self.next_probe)), bx(T::Lit(V::Int(i))));
+                    z = T::Comma(bx(m), bx(z));
+                }
+                T::IdxZ(bx(z))
+            }
             0..=2 => {
                 let a = self.path_term(d - 1);
                 let b = if self.rng.chance(1, 3) { self.path_hazard() } else { self.path_term(d - 1) };
@@ -764,7 +780,7 @@ fn well_scoped(t: &T, vars: &mut Vec<String>, labels: &mut Vec<String>) -> bool 
         }
         T::TryQ(a) | T::First(a) | T::Limit(_, a) | T::Skip(_, a) | T::Nth(_, a) | T::IsEmpty(a) | T::Any(a, _)
         | T::All(a, _) | T::Arr(a) | T::Rec(a) | T::Repeat(a) | T::Recurse(a) | T::While(_, a) | T::Until(_, a)
-        | T::SliceTo(_, a) | T::IndexAt(a) | T::PathOf(a) => well_scoped(a, vars, labels),
+        | T::SliceTo(_, a) | T::IndexAt(a) | T::PathOf(a) | T::IdxZ(a) => well_scoped(a, vars, labels),
         _ => true,
     }
 }
@@ -863,6 +879,115 @@ pub fn case_out(cfg: &Cfg, i: u64) -> CaseOut {
     CaseOut { digest, viol, tally: tally.0, keys, sample }
 }
 
+/// Process level: prefix consumers of the *standard input stream* of the real binary. The data
+/// stops arriving after k complete values (the simulated producer keeps the stream open); a
+/// consumer whose result is determined by the delivered prefix must have produced it - it must
+/// not wait for the (k+1)-th value. Judged by the command-line reference model (C17's), reported
+/// here under class R5.
+const PREFIX_CONSUMERS: &[(&str, bool)] = &[
+    ("first(inputs)", true),
+    ("limit(2; inputs)", true),
+    ("[limit(2; inputs)]", true),
+    ("input", true),
+    ("input", false),
+    ("isempty(inputs)", true),
+    ("., halt", false),
+    ("first(inputs | select(. >= 1))", true),
+    ("label $l | inputs | ., (if . >= 1 then break $l else empty end)", true),
+    ("foreach inputs as $x (0; . + $x)", true),
+    ("nth(1; inputs)", true),
+    ("first(inputs, error(\"never\"))", true),
+    ("if . == 1 then halt else . end", false),
+    ("[., input]", false),
+    ("inputs | ., (if . == 1 then halt else empty end)", true),
+];
+
+fn process_stratum(cfg: &Cfg, tally: &mut Tally, keys: &mut BTreeSet<String>, samples: &mut Vec<serde_json::Value>) -> Result<Vec<Violation>, Harness> {
+    use super::c17;
+    use crate::model::cli::{End, Invocation};
+    use crate::worker::Worker;
+    use simos::{Blob, Exit, FileSpec, Stdin, StdinEnd, StdinStep};
+    let n = cfg.n(150, 4000);
+    let idx: Vec<u64> = (0..n as u64).collect();
+    type R = (Option<Violation>, Tally, String, Option<serde_json::Value>);
+    let res: Vec<Result<R, Harness>> = par_map(
+        &idx,
+        cfg.simos_workers,
+        |k| Worker::new(cfg, k),
+        |wk, _, &i| {
+            let wk = wk.as_mut().map_err(|e| Harness(e.0.clone()))?;
+            wk.tally = Tally::default();
+            let mut rng = Rng::for_run(cfg.seed, "C03proc", i);
+            let (filter, null_input) = *rng.pick(PREFIX_CONSUMERS);
+            let mut inv = Invocation { null_input, filter: Some(filter.to_string()), compact: true, ..Default::default() };
+            inv.env = vec![("PATH".into(), "/usr/bin".into())];
+            let raw = rng.chance(1, 5) && !filter.contains(">=") && !filter.contains("==") && !filter.contains("+ $x");
+            if raw {
+                inv.from = Some("raw".into());
+            }
+            let total = 1 + rng.usize(5);
+            let delivered = rng.usize(total + 1);
+            let sep = *rng.pick(&["\n", "\n", " \n", "\n\n"]);
+            let bytes: Vec<u8> = (0..delivered).flat_map(|j| format!("{j}{sep}").into_bytes()).collect();
+            let mut stdin = Stdin { bytes: Blob(bytes), end: StdinEnd::Stall, ..Default::default() };
+            if rng.chance(1, 2) {
+                stdin.script = vec![StdinStep::Chunk(1 + rng.usize(4) as u32)];
+                stdin.cycle = true;
+            }
+            let argv = c17::render_argv(&inv, &mut rng);
+            let case = c17::Case {
+                inv,
+                argv,
+                files: vec![FileSpec::dir(c17::CWD)],
+                stdin,
+                faults: vec![],
+                stratum: "stall".into(),
+                missing: None,
+                usage_error: None,
+            };
+            let pred = case.predict()?;
+            let h = wk.run(&case.world())?;
+            let mut t = Tally::default();
+            t.add("process_runs");
+            match (&pred.end, &h.exit) {
+                (End::Pending, Exit::Stalled) => t.add("reach:process:both_wait_for_more_input"),
+                (End::Done, Exit::Exited(_)) => t.add("reach:process:result_from_the_delivered_prefix"),
+                _ => {}
+            }
+            let key = format!("proc|{filter}|{delivered}/{total}|{:?}", h.exit);
+            let viol = c17::judge(&case, &pred, &h).map(|(class, detail)| Violation {
+                property: ID.into(),
+                class: "R5".into(),
+                detail: format!(
+                    "`jaq {}` with {delivered} value(s) delivered on standard input and the producer pausing: {detail} [C17 class {class}]",
+                    case.argv.join(" ")
+                ),
+                fingerprint: {
+                    let mut m = BTreeMap::new();
+                    m.insert("filter".to_string(), filter.to_string());
+                    m
+                },
+                case: json!({"process_case": case}),
+                seed: cfg.seed,
+                run: 30_000_000 + i,
+                minimised_steps: 0,
+            });
+            let sample = (i < 2).then(|| json!({"stratum": "process", "argv": case.argv, "stdin_delivered": String::from_utf8_lossy(&case.stdin.bytes.0), "then": "the producer pauses (stream stays open)", "exit": format!("{:?}", h.exit), "stdout": String::from_utf8_lossy(&h.stdout.0)}));
+            t.merge(&wk.tally);
+            Ok((viol, t, key, sample))
+        },
+    );
+    let mut out = Vec::new();
+    for r in res {
+        let (v, t, k, s) = r?;
+        tally.merge(&t);
+        keys.insert(k);
+        out.extend(v);
+        samples.extend(s);
+    }
+    Ok(out)
+}
+
 /// The violation reported for a case whose worker process crashed or hung.
 fn crash_violation(cfg: &Cfg, i: u64, how: &str) -> Violation {
     let mut rng = Rng::for_run(cfg.seed, ID, i);
@@ -915,6 +1040,9 @@ pub fn check(cfg: &Cfg) -> Result<i32, Harness> {
             }
         }
     }
+    let proc_viol = process_stratum(cfg, &mut tally, &mut shapes, &mut samples)?;
+    evaluations += tally.get("process_runs");
+    violations.extend(proc_viol);
     let inconclusive = tally.get("inconclusive");
     if inconclusive * 50 > evaluations {
         return Err(Harness(format!(
@@ -936,6 +1064,7 @@ pub fn check(cfg: &Cfg) -> Result<i32, Harness> {
             "inconclusive": inconclusive,
             "inconclusive_reasons": pick("inconclusive:"),
             "constructs_exercised": pick("reach:"),
+            "process_stratum": {"runs": tally.get("process_runs"), "what": "the real binary under simos with prefix consumers of standard input (first(inputs), limit, input, isempty, nth, label/break, foreach, `., halt`) and a producer that pauses after k complete values while keeping the stream open: whatever the delivered prefix determines must be on stdout and a determined outcome must have ended the run (judged by the command-line reference model; class R5)"},
             "faults_injected": {"input stream fails after j values": "InputEnd::Fail", "consumer cancels after k outputs": "every k", "endless input stream": "InputEnd::Endless"},
             "real_vs_stub": {"real": ["jaq-core compiler and interpreter, jaq-std/jaq-json natives and definitions, jaq-std input/inputs, RcIter"], "simulated": ["the consumer (pulls k, drops)", "the input stream", "probe/bomb natives"], "model": ["model/lazy.rs: lazy definitional evaluator of the term language"]},
             "samples": samples,
@@ -982,6 +1111,7 @@ fn term_tags(t: &T) -> BTreeSet<&'static str> {
             T::SliceTo(..) | T::IndexAt(_) => "path_position",
             T::PathOf(_) => "path_mode",
             T::Idx(_) | T::Iter | T::Pass(_) => "leaf",
+            T::IdxZ(_) => "path_position",
         });
         match t {
             T::Comma(a, b) | T::Pipe(a, b) | T::Alt(a, b) | T::Try(a, b) | T::As(a, _, b) | T::If(_, a, b) => {
@@ -990,7 +1120,7 @@ fn term_tags(t: &T) -> BTreeSet<&'static str> {
             }
             T::TryQ(a) | T::Label(_, a) | T::First(a) | T::Limit(_, a) | T::Skip(_, a) | T::Nth(_, a) | T::IsEmpty(a)
             | T::Any(a, _) | T::All(a, _) | T::Arr(a) | T::Rec(a) | T::Repeat(a) | T::Recurse(a) | T::While(_, a)
-            | T::Until(_, a) | T::SliceTo(_, a) | T::IndexAt(a) | T::PathOf(a) => go(a, s),
+            | T::Until(_, a) | T::SliceTo(_, a) | T::IndexAt(a) | T::PathOf(a) | T::IdxZ(a) => go(a, s),
             T::Foreach(a, _, _, u, e) => {
                 go(a, s);
                 go(u, s);
@@ -1011,7 +1141,13 @@ fn term_tags(t: &T) -> BTreeSet<&'static str> {
 }
 
 /// runs in a child process (see main.rs): a crash or hang of the child is the violation
-pub fn replay(_cfg: &Cfg, v: &Violation) -> Result<Option<(String, String)>, Harness> {
+pub fn replay(cfg: &Cfg, v: &Violation) -> Result<Option<(String, String)>, Harness> {
+    if let Some(pc) = v.case.get("process_case") {
+        let case: super::c17::Case = serde_json::from_value(pc.clone())?;
+        let mut wk = crate::worker::Worker::new(cfg, 0)?;
+        let (viol, _, _) = super::c17::eval(&case, &mut wk)?;
+        return Ok(viol.map(|(c, d)| ("R5".to_string(), format!("{d} [C17 class {c}]"))));
+    }
     let case: Case = serde_json::from_value(v.case.clone())?;
     Ok(match judge(&case) {
         Verdict::Violation(c, d) => Some((c, d)),
